@@ -41,9 +41,16 @@ TAct ==
     \/ Is("deliver") /\ Deliver(E.i) /\ last'.p = E.p
     \/ Is("drop") /\ DropPk(E.i)
 
+\* waker observations have no counterpart in the ImplSpec (it has no wakers): ghosts only
+TGhost == /\ \/ Is("apark") /\ P_APark(E.a)
+             \/ Is("aunpark") /\ P_AUnpark(E.a)
+             \/ Is("wakes") /\ P_Wakes(E.woken, E.lq)
+          /\ UNCHANGED <<ks, wire, cl, sv, lh, zw, last>>
+
 TNext == /\ pfx' = pfx
          /\ \/ TReset
             \/ TAct /\ Same
+            \/ TGhost
 
 TSpec == TInit /\ [][TNext]_<<vars, l>>
 
